@@ -38,6 +38,10 @@ def _scalar_hook(e: ast.AST, ctx):
 
 def run(prog: Program, rep, tier: str) -> None:
     rep.explanation = EXPLANATION
+    # the step solvers are compared on the formulas they share (aug_lag_deriv_xx, value_at, compute_active_set ..): those must be
+    # functions of their arguments - a memo keyed on fewer arguments hands different solvers / different calls different matrices
+    from . import c13 as _c13
+    _c13.formula_classes_pure(prog, rep, with_iterate=True)
     hessian_multiplier(prog, rep)
     elimination_constants(prog, rep)
     invalidation(prog, rep)
